@@ -1,4 +1,4 @@
 SPECIFICATION Spec
-CONSTANTS Tier = "small" GenericNopadFix = TRUE EcdsaCurveFix = TRUE KwLenFix = TRUE OpenLenFix = FALSE
+CONSTANTS Tier = "small" GenericNopadFix = TRUE EcdsaCurveFix = TRUE KwLenFix = TRUE OpenLenFix = FALSE PadBoundFix = TRUE KidCacheFix = TRUE
 INVARIANTS NotBad
 CHECK_DEADLOCK FALSE
